@@ -201,6 +201,9 @@ pub fn run(ctx: &Ctx, mode: Mode) -> Shard {
     let cfg = mode.cfg();
     let mut total = Stats::default();
     let ps: u64 = ctx.get("pagesize").and_then(|s| s.parse().ok()).unwrap_or(1024);
+    if ctx.get("direct").is_some() {
+        exec::set_direct_writes(true);
+    }
 
     if let Some(rp) = &ctx.replay {
         let is_live = std::fs::read(rp).ok().and_then(|b| serde_json::from_slice::<serde_json::Value>(&b).ok()).map(|d| d["case"]["kind"] == "live").unwrap_or(false);
